@@ -26,7 +26,7 @@ EXPLANATION = (
 )
 ASSUMPTIONS = [
     "the twelve non-x86-64 assembly files (ARMv6, ARMv6-M, ARMv7-M, ARMv8-A, AVR5 x3, i386, m68k, RISC-V x3, Xtensa) are NOT verified against the specification or their ABIs: only generator equality and the executable-stack fact are checked for them",
-    "lifter trusted: instruction table, System V calling convention, narrow arguments arriving zero-extended; only the Linux/ELF preprocessor variant and the ASCON_MASKED_MAX_SHARES == 4 layout of the masked files",
+    "lifter trusted: instruction table, System V calling convention, narrow arguments arriving zero-extended; only the Linux/ELF preprocessor variant; the ASCON_MASKED_MAX_SHARES == 4 layout of the masked files in the quick tier, 3 and 2 in the thorough tier",
     "generator equality compares with the generators of the same working tree (a change made consistently to generator and output passes this fact and is then judged by the contract part, for x86-64 only)",
     "executable stack: decided per object file (a missing .note.GNU-stack section in any input object makes GNU ld mark the stack executable unless -z noexecstack is given); the final link of libascon is not repeated by the check",
 ]
@@ -53,7 +53,7 @@ GENERATORS = [
 def groups(tier):
     seed = int(os.environ.get("VERIF_SEED", "0") or 0)
     gs = c08.asm_groups(props=("C18",), prefix="c18")
-    gs += common.masked_asm_permute_groups("c18", ["C18"], tier, seed=seed)
+    gs += common.masked_asm_permute_groups("c18", ["C18"], tier, seed=seed, layouts=(4,) if tier == "quick" else (4, 3, 2))
     gs += common.masked_word_groups("c18", ["C18"], cfg="DEF", max_shares=4)
     return gs
 
